@@ -1309,7 +1309,7 @@ def ok_needed(prog, sl, g, c, sites):
     return True
 
 
-def chain_always(E, prog, e, first=1):
+def chain_always(E, prog, e, first=1, body=()):
     """[] when, in every workspace function between the entry function and the std call of effect e, the next call of
     the chain is made on every way to that function's success (from chain level `first` on: the levels above are the
     ones that hold the "was it provided" decision and are judged by the caller) and its failure cannot end in that
@@ -1326,7 +1326,9 @@ def chain_always(E, prog, e, first=1):
                 bad.append('%s can succeed without calling %s' % (g.path.split('::')[-1], _last(c.name or '?')))
         if c.dty and c.dty.startswith(('std::result::Result<', 'std::option::Option<')) and not ok_on_success(prog, g, c, sites or None):
             bad.append('%s can succeed although %s failed' % (g.path.split('::')[-1], _last(c.name or '?')))
-        if g.kind != 'Closure' and sites:
+        if g.kind != 'Closure' and sites and g.path not in body:
+            # (`body`: the private function that IS the phase after its inputs were read — outcomes_body — tolerates what
+            # the phase tolerates, e.g. a missing store.toml)
             # the other fallible steps of the helper (serialising the value, opening the file, ..): a failure there
             # must not end in the helper's success either, or "written" stops meaning "the provided value was written"
             for x, _fa in E.must_calls(g, sites):
@@ -1522,3 +1524,102 @@ def elsewhere(v, fn):
             continue
         return False
     return False
+
+
+def descriptor_reader(prog, E, E_rt, rt, rd, rb, baseline):
+    """the private function that reads buildpack.toml for the gate and for both phases.  Under its baseline name when that
+    exists; otherwise found by its role: the outermost private libcnb function that lies on the call chain of the READ of
+    `<..>/buildpack.toml` from libcnb_runtime, libcnb_runtime_detect and libcnb_runtime_build alike (two helpers merged
+    into one that returns (directory, descriptor), a renamed / re-homed read).  The obligations stated on it (path of the
+    file, Ok needed at the gate, `?`-propagation into the contexts) are unchanged."""
+    if baseline in prog.fns:
+        return baseline
+    from .lib.value import walk as _walk
+    per_entry = []
+    for ent, EE in ((rt, E_rt), (rd, E), (rb, E)):
+        names = []
+        for e in EE.expand(ent, 'may'):
+            if e.kind != 'READ' or e.path is None or not any(x == ('const', 'buildpack.toml') for x in _walk(e.path)):
+                continue
+            for l in e.chain:
+                n = getattr(l, 'call', l).name
+                g = prog.fns.get(n)
+                if g is not None and g.crate == 'libcnb' and g.kind != 'Closure' and g.path not in (rt.path, rd.path, rb.path) and n not in names:
+                    names.append(n)
+        per_entry.append(names)
+    common = [n for n in per_entry[0] if all(n in ns for ns in per_entry[1:])]
+    return common[0] if common else baseline
+
+
+CALL_CLOSURE = ('call_once', 'call_mut', 'call')
+
+
+def closure_invocation(E, e):
+    """effect e sits in a closure K that was handed as an argument to a private function g (last link of e's chain) which
+    calls it itself (`fn from_phase_result(r, on_error: impl FnOnce(E)) -> i32 { match r { Err(e) => { on_error(e); 1 } .. } }`).
+    Returns (g, c2, m, bind) — the single call site c2 in g of the parameter K was passed for, the bindings m of g's
+    parameters in the entry function's terms and the bindings of K's parameters to what c2 passes, in entry terms — or None
+    (K not passed to a private function, called from several places / not at all, passed on, kept)."""
+    if not e.chain or e.call is None or e.call.fn.kind != 'Closure':
+        return None
+    K = e.call.fn
+    l = e.chain[-1]
+    call, lm = getattr(l, 'call', l), getattr(l, 'mapping', None) or {}
+    prog, sl = E.prog, E.slicer
+    g = prog.fns.get(call.name)
+    if g is None or g.kind == 'Closure' or call.indirect:
+        return None
+    ks = [i for i, a in enumerate(call.args) if i < g.argc and strip(sl.operand(call.fn, a))[0] == 'closure' and strip(sl.operand(call.fn, a))[1] == K.path]
+    if len(ks) != 1:
+        return None
+    k = ks[0]
+    is_k = lambda v: strip(v)[0] == 'param' and strip(v)[1] == g.path and strip(v)[2] == k
+    uses, sites = 0, []
+    for c2 in g.calls:
+        vals = [sl.operand(g, a) for a in c2.args]
+        if not any(is_k(v) or any(is_k(x) for x in walk(v)) for v in vals):
+            continue
+        uses += 1
+        if (c2.name or '').rsplit('::', 1)[-1] in CALL_CLOSURE and vals and is_k(vals[0]) and len(vals) == 2 and c2.bb in g.reachable(0):
+            sites.append((c2, vals[1]))
+    if uses != 1 or len(sites) != 1:
+        return None
+    c2, tup = sites[0]
+    m = E.call_mapping(call.fn, call, g, lm)
+    tup = strip(E.subst(tup, m))
+    if tup[0] != 'tuple':
+        return None
+    bind = {(K.path, 1 + j): x for j, x in enumerate(tup[1])}
+    return g, c2, m, bind
+
+
+ERR_ONLY = ('std::result::Result::<T, E>::inspect_err', 'std::result::Result::<T, E>::map_err')
+
+
+def outcomes_body(E, fn):
+    """outcomes(E, fn), looking through `body(..).inspect_err(f)` / `.map_err(f)`: when what fn returns at a success site is
+    the Result of ONE call of a private function seen through adapters that only touch the Err side, fn succeeds exactly
+    when that function does and with its value, so the outcomes are the function's own (effects, decisions and values in
+    fn's terms) on top of what fn did on the way to the call.  Each such outcome carries .body_fn / .body_map / .body_call."""
+    from .lib.effects import outcomes, Outcome, Link
+    prog = E.prog
+    res = []
+    for o in outcomes(E, fn):
+        x = o.value
+        while x[0] == 'call' and x[1] in ERR_ONLY and x[2]:
+            x = x[2][0]
+        g = prog.fns.get(x[1]) if x is not o.value and x[0] == 'call' and isinstance(x[1], str) and len(x) > 3 and x[3] else None
+        site = o.sites[-1]
+        c = fn.call_at(x[3][1]) if g is not None and len(o.sites) == 1 and x[3][0] == fn.path else None
+        if g is None or c is None or g.kind == 'Closure' or g.vis == 'pub' or g.crate != fn.crate or g.path == fn.path \
+                or c.name != g.path or not fn.dominates(c.bb, site.bb) or fn.in_loop(c.bb):
+            res.append(o)
+            continue
+        m = E.call_mapping(fn, c, g, {})
+        own_must = [e for e in o.must if not (e.level == 0 and e.level_bb == c.bb)]
+        own_may = [e for e in o.may if not (e.level == 0 and e.level_bb == c.bb)]
+        for sub in outcomes(E, g, m, (Link(c, {}),), (fn.path,)):
+            n = Outcome(sub.value, own_must + sub.must, own_may + sub.may, list(o.conds) + list(sub.conds), tuple(o.sites) + tuple(sub.sites))
+            n.body_fn, n.body_map, n.body_call = g, m, c
+            res.append(n)
+    return res
